@@ -1,13 +1,29 @@
 import Rooc.Wire
-import Rooc.Oracle
+import Rooc.WireSolve
+import Rooc.SolveOracle
+import Rooc.Drv.C04
 namespace Rooc.Drv.C05
-open Rooc Sexp
+open Rooc Sexp SolverWrap
 
-/-- model requests for C05 (run at `Float` for the exact diff, at `Ext Rat` as oracle). -/
+/-- model requests for C05: the verdict / status mapping arms of the wrappers (shared with C04). -/
 def handle (α : Type) [Arith α] [Wire α] : List Sexp → Sexp
-  | _ => app "err" [.atom "bad-request"]
+  | [.atom "map-simplex-error", .atom e] => app "ok" [.atom (mapSimplexError e)]
+  | [.atom "exact", lm] =>
+    -- the exact certified verdict itself (diagnostics; always evaluated at `Ext Rat`)
+    match (LinModel.dec lm : Option (LinModel (Ext Rat))) with
+    | some lm =>
+      match SolveOracle.exact lm with
+      | .ok (_, s) => app "ok" [.atom (SolveOracle.verdictName s.verdict), .atom (toString s.certified),
+          match s.verdict with | .optimal _ v => SolveOracle.encRat v | _ => .atom "-"]
+      | .error w => app "err" [.atom w]
+    | none => app "err" [.atom "decode"]
+  | args => Drv.C04.handle α args      -- the wrapper models (`milp-wrap`, `microlp-wrap`, `clarabel-wrap`, `auto-wrap`)
 
-/-- exact oracle: the PROPERTY evaluated on the implementation's own answer. -/
+/-- exact oracle: verdict and value of one entry point against the certified exact solver. -/
 def oracle : List Sexp → Sexp
+  | [.atom "verdict", lm, .atom solver, res, .str msg] =>
+    match (LinModel.dec lm : Option (LinModel (Ext Rat))), (ImplRes.dec res : Option (ImplRes (Ext Rat))) with
+    | some lm, some r => SolveOracle.checkVerdict lm solver r msg
+    | _, _ => app "err" [.atom "decode"]
   | _ => app "err" [.atom "bad-request"]
 end Rooc.Drv.C05
